@@ -60,6 +60,7 @@ def qualnames(tree: ast.Module) -> list[str]:
             if isinstance(n, (ast.FunctionDef, ast.AsyncFunctionDef)):
                 out.append(prefix + n.name)
             elif isinstance(n, ast.ClassDef):
+                out.append(prefix + n.name + '.')       # the class itself (it may have no methods: a record)
                 walk(n.body, prefix + n.name + '.')
     walk(tree.body, '')
     return out
@@ -493,6 +494,10 @@ class Normaliser:
             if isinstance(n, ast.Call) and isinstance(n.func, ast.Attribute) and n.func.attr == 'join' \
                     and isinstance(n.func.value, ast.Constant) and len(n.args) == 1 and isinstance(n.args[0], ast.Call):
                 return True
+            if isinstance(n, ast.Call) and isinstance(n.func, ast.Subscript) and (
+                    (isinstance(n.func.value, ast.Name) and n.func.value.id.isupper())
+                    or (isinstance(n.func.value, ast.Attribute) and n.func.value.attr.isupper())):
+                return True             # TABLE[key](..): a callee picked from a constant table
             if isinstance(n, ast.Assign) and isinstance(n.value, ast.Call) and isinstance(n.value.func, ast.Name) \
                     and n.value.func.id[:1].isupper() and self.baseline and n.value.func.id in self.new_class_names():
                 return True
@@ -511,6 +516,13 @@ class Normaliser:
                 return True
             if isinstance(n, (ast.FunctionDef, ast.AsyncFunctionDef)) and n is not fn:
                 return True
+            if isinstance(n, ast.Name) and isinstance(n.ctx, ast.Load) and n.id.isupper() and len(n.id) > 3 \
+                    and ('DAY' in n.id or 'EPOCH' in n.id or 'TIME' in n.id or 'DELTA' in n.id or 'SECOND' in n.id
+                         or 'HOUR' in n.id or 'MINUTE' in n.id or 'PERIOD' in n.id):
+                return True             # maybe a module-level date / time constant
+            if isinstance(n, ast.Return) and isinstance(n.value, ast.Call) and isinstance(n.value.func, ast.Name) \
+                    and n.value.func.id[:1].isupper() and n.value.keywords:
+                return True             # return Record(field=..): maybe a named tuple
             if isinstance(n, ast.Call):
                 f = n.func
                 name = f.id if isinstance(f, ast.Name) else (f.attr if isinstance(f, ast.Attribute) else None)
@@ -539,16 +551,24 @@ class Normaliser:
             c4 = self._join_of_generator(fn, rel, mod, cls) or c4
             c4 = self._comprehension_with_helper(fn, rel, mod, cls, stack) or c4
             c4 = self._unpack_of_comprehension(fn) or c4
+            c4 = self._extend_of_generator(fn) or c4
+            c4 = self._enumerate_of_generator_call(fn, rel, mod, cls) or c4
             c4 = self._or_default_to_ifexp(fn) or c4
             self._cur_fn = fn
             c5 = self._fold_table_comprehensions(fn, mod, cls)
             c5 = self._unroll_constant_tables(fn, mod, cls) or c5
+            c5 = self._thread_boolean_temp(fn) or c5
+            c5 = self._forward_ctor_fields(fn, mod) or c5
+            c5 = self._sink_splat_user(fn) or c5
+            c5 = self._inline_module_value_constants(fn, mod) or c5
             c5 = self._fold_constant_ifs(fn) or c5
             c5 = self._loops_over_genexp(fn) or c5
             c5 = self._forward_adjacent_copies(fn) or c5
+            c5 = self._collapse_copy_chains(fn) or c5
             c5 = self._propagate_field_copies(fn) or c5
             c5 = self._sink_table_loops(fn, mod, cls) or c5
             c5 = self._sink_rest_after_lookup(fn, mod, cls) or c5
+            c5 = self._name_table_callee(fn, mod, cls) or c5
             for _k in range(8):
                 if not self._split_on_table_lookup(fn, mod, cls):
                     break
@@ -767,9 +787,13 @@ class Normaliser:
             return False
         changed = False
         for n in ast.walk(fn):
-            if not (isinstance(n, ast.Assign) and len(n.targets) == 1 and isinstance(n.targets[0], (ast.Tuple, ast.List))
-                    and isinstance(n.value, ast.Call) and isinstance(n.value.func, ast.Name)
-                    and n.value.func.id in classes):
+            # `return Pair(first=x, second=y)`: a named tuple is a tuple - callers that unpack the result or
+            # compare it see the same value
+            is_ret = isinstance(n, ast.Return) and isinstance(n.value, ast.Call) and isinstance(n.value.func, ast.Name) \
+                and n.value.func.id in classes and bool(self.baseline) and n.value.func.id in self.new_class_names()
+            if not is_ret and not (isinstance(n, ast.Assign) and len(n.targets) == 1 and isinstance(n.targets[0], (ast.Tuple, ast.List))
+                                   and isinstance(n.value, ast.Call) and isinstance(n.value.func, ast.Name)
+                                   and n.value.func.id in classes):
                 continue
             c = classes[n.value.func.id]
             fields = [(x.target.id, x.value) for x in c.body if isinstance(x, ast.AnnAssign)
@@ -789,7 +813,7 @@ class Normaliser:
                     vals = None
                     break
                 vals.append(v)
-            if vals is None or len(vals) != len(n.targets[0].elts) or len(actual) > len(fields):
+            if vals is None or len(actual) > len(fields) or (not is_ret and len(vals) != len(n.targets[0].elts)):
                 continue
             n.value = ast.copy_location(ast.Tuple(elts=vals, ctx=ast.Load()), call)
             changed = True
@@ -1504,6 +1528,38 @@ class Normaliser:
                         break
         return changed
 
+    def _name_table_callee(self, fn: ast.AST, mod, cls) -> bool:
+        """`x = TABLE[key](args)` / `TABLE[key](args)` / `return TABLE[key](args)` over a constant dict:
+        the function or class picked from the table gets a name first (`_hN = TABLE[key]`), so that the
+        lookup can be split into one branch per table value like any other"""
+        changed = False
+        for blk in list(self._blocks(fn)):
+            i = 0
+            while i < len(blk):
+                st = blk[i]
+                i += 1
+                if not (isinstance(st, (ast.Assign, ast.AnnAssign, ast.Expr, ast.Return)) and getattr(st, 'value', None) is not None):
+                    continue
+                call = st.value
+                if not (isinstance(call, ast.Call) and isinstance(call.func, ast.Subscript)
+                        and not isinstance(call.func.slice, ast.Slice)):
+                    continue
+                if self._lookup_table(call.func.value, mod, cls) is None:
+                    continue
+                if any(isinstance(x, (ast.Call, ast.Await, ast.NamedExpr, ast.Yield)) for x in ast.walk(call.func.slice)):
+                    continue
+                taken_ = {x.id for x in ast.walk(fn) if isinstance(x, ast.Name)}
+                n = 1
+                while f'_h{n}' in taken_:
+                    n += 1
+                name = f'_h{n}'
+                look = call.func
+                call.func = ast.copy_location(ast.Name(id=name, ctx=ast.Load()), look)
+                blk.insert(i - 1, ast.copy_location(ast.Assign(targets=[ast.Name(id=name, ctx=ast.Store())], value=look), st))
+                i += 1
+                changed = True
+        return changed
+
     def _split_on_table_lookup(self, fn: ast.AST, mod, cls) -> bool:
         """`x = TABLE[key]` / `a, b = TABLE[key]` / `x = TABLE.get(key[, default])` over a constant dict,
         followed by code that uses x: one branch per distinct table value (`if key == K1: <rest with V1>
@@ -1827,6 +1883,119 @@ class Normaliser:
                 i += 1
         return changed
 
+    def _extend_of_generator(self, fn: ast.AST) -> bool:
+        """`xs.extend(E for v in IT if C)` (generator expression or list comprehension, one clause) is
+        `for v in IT: if C: xs.append(E)`"""
+        changed = False
+        for blk in list(self._blocks(fn)):
+            for i, st in enumerate(blk):
+                if not (isinstance(st, ast.Expr) and isinstance(st.value, ast.Call) and isinstance(st.value.func, ast.Attribute)
+                        and st.value.func.attr == 'extend' and len(st.value.args) == 1 and not st.value.keywords
+                        and isinstance(st.value.args[0], (ast.GeneratorExp, ast.ListComp))
+                        and len(st.value.args[0].generators) == 1 and not st.value.args[0].generators[0].is_async):
+                    continue
+                recv = st.value.func.value
+                if any(isinstance(x, (ast.Call, ast.Await)) for x in ast.walk(recv)):
+                    continue
+                comp = st.value.args[0]
+                g = comp.generators[0]
+                app = ast.Expr(value=ast.Call(func=ast.Attribute(value=clone(recv), attr='append', ctx=ast.Load()),
+                                              args=[comp.elt], keywords=[]))
+                body: list[ast.stmt] = [app]
+                for c in reversed(g.ifs):
+                    body = [ast.If(test=c, body=body, orelse=[])]
+                loop = ast.For(target=g.target, iter=g.iter, body=body, orelse=[], type_comment=None)
+                for x in ast.walk(loop):
+                    if isinstance(x, ast.Name) and isinstance(x.ctx, ast.Store):
+                        pass
+                blk[i] = ast.fix_missing_locations(ast.copy_location(loop, st))
+                changed = True
+        return changed
+
+    def _enumerate_of_generator_call(self, fn: ast.AST, rel, mod, cls) -> bool:
+        """`for i, v in enumerate(self.gen(a)[, start]): BODY` with a new generator helper is
+        `i = start; for v in self.gen(a): BODY; i += 1` (BODY without `continue` and without a store to i), so
+        that the helper can be written out in the loop"""
+        changed = False
+        for blk in list(self._blocks(fn)):
+            i = 0
+            while i < len(blk):
+                st = blk[i]
+                i += 1
+                if not (isinstance(st, ast.For) and not st.orelse and isinstance(st.iter, ast.Call)
+                        and isinstance(st.iter.func, ast.Name) and st.iter.func.id == 'enumerate'
+                        and 1 <= len(st.iter.args) <= 2 and isinstance(st.iter.args[0], ast.Call)
+                        and isinstance(st.target, ast.Tuple) and len(st.target.elts) == 2
+                        and isinstance(st.target.elts[0], ast.Name)):
+                    continue
+                start = st.iter.args[1] if len(st.iter.args) == 2 else next(
+                    (k.value for k in st.iter.keywords if k.arg == 'start'), ast.Constant(value=0))
+                inner = st.iter.args[0]
+                r = self._resolve(inner, fn, rel, mod, cls)
+                if r is None or not self._acceptable_generator(r[0]):
+                    continue
+                cnt = st.target.elts[0].id
+                if any(isinstance(x, ast.Continue) for b in st.body for x in ast.walk(b)) or any(
+                        isinstance(x, ast.Name) and x.id == cnt and isinstance(x.ctx, (ast.Store, ast.Del))
+                        for b in st.body for x in ast.walk(b)):
+                    continue
+                st.target = st.target.elts[1]
+                st.iter = inner
+                st.body.append(ast.copy_location(ast.AugAssign(target=ast.Name(id=cnt, ctx=ast.Store()), op=ast.Add(),
+                                                               value=ast.Constant(value=1)), st))
+                blk.insert(i - 1, ast.copy_location(ast.Assign(targets=[ast.Name(id=cnt, ctx=ast.Store())], value=start), st))
+                ast.fix_missing_locations(st)
+                i += 1
+                changed = True
+        return changed
+
+    def _collapse_copy_chains(self, fn: ast.AST) -> bool:
+        """`y = E` ... `x = y` in the same block, where `y` (a name the inliner made: `<local>__<helper>`) is
+        stored once and read only by that copy, and `x` is bound only by the copy and not read before it:
+        `x = E` at the place of the first statement, the copy goes away"""
+        changed = False
+        stores: dict[str, int] = {}
+        loads: dict[str, int] = {}
+        for n in ast.walk(fn):
+            if isinstance(n, ast.Name):
+                d = stores if isinstance(n.ctx, (ast.Store, ast.Del)) else loads
+                d[n.id] = d.get(n.id, 0) + 1
+        params = {a.arg for a in ast.walk(fn) if isinstance(a, ast.arg)}
+        for blk in list(self._blocks(fn)):
+            j = 0
+            while j < len(blk):
+                b = blk[j]
+                if not (isinstance(b, (ast.Assign, ast.AnnAssign)) and isinstance(getattr(b, 'value', None), ast.Name)
+                        and isinstance(b.targets[0] if isinstance(b, ast.Assign) and len(b.targets) == 1 else getattr(b, 'target', None), ast.Name)):
+                    j += 1
+                    continue
+                x = (b.targets[0] if isinstance(b, ast.Assign) else b.target).id
+                y = b.value.id
+                if '__' not in y or y in params or x in params or x == y \
+                        or stores.get(y) != 1 or loads.get(y) != 1 or stores.get(x) != 1:
+                    j += 1
+                    continue
+                i = next((k for k in range(j) if isinstance(blk[k], (ast.Assign, ast.AnnAssign))
+                          and isinstance(blk[k].targets[0] if isinstance(blk[k], ast.Assign) and len(blk[k].targets) == 1
+                                         else getattr(blk[k], 'target', None), ast.Name)
+                          and (blk[k].targets[0] if isinstance(blk[k], ast.Assign) else blk[k].target).id == y), None)
+                if i is None:
+                    j += 1
+                    continue
+                # x is not read between the two statements (it is bound nowhere else, so a read there would
+                # be a read before assignment anyway) - and nothing in between is compound
+                if any(isinstance(z, ast.Name) and z.id == x for st in blk[i:j] for z in ast.walk(st)):
+                    j += 1
+                    continue
+                tgt = blk[i].targets[0] if isinstance(blk[i], ast.Assign) else blk[i].target
+                tgt.id = x
+                del blk[j]
+                stores[y] = 0
+                loads[y] = 0
+                changed = True
+            # no increment on deletion
+        return changed
+
     def _loops_over_genexp(self, fn: ast.AST) -> bool:
         """`for v in (E for x in XS if C): BODY` - also through a local bound once to the generator
         expression and read only by the loop - is `for x in XS: if C: v = E; BODY`"""
@@ -1884,6 +2053,225 @@ class Normaliser:
                     blk[i] = new
                 changed = True
                 break
+        return changed
+
+    def _thread_boolean_temp(self, fn: ast.AST) -> bool:
+        """an if-chain whose every leaf ends by assigning the same local `t`, followed directly by `if t:`
+        (or `if not t:`), where `t` is read nowhere else: the second test moves into the leaves, each with
+        the expression that leaf assigned (jump threading).  This is what an inlined predicate helper with
+        several returns leaves behind (`if a: t = p elif b: t = q else: t = False` / `if t: ...`)."""
+        changed = False
+        for blk in list(self._blocks(fn)):
+            for i in range(len(blk) - 1):
+                a, b = blk[i], blk[i + 1]
+                if not (isinstance(a, ast.If) and isinstance(b, ast.If)):
+                    continue
+                test, neg = b.test, False
+                if isinstance(test, ast.UnaryOp) and isinstance(test.op, ast.Not):
+                    test, neg = test.operand, True
+                if not isinstance(test, ast.Name):
+                    continue
+                t = test.id
+                loads = [x for x in ast.walk(fn) if isinstance(x, ast.Name) and x.id == t and isinstance(x.ctx, ast.Load)]
+                if len(loads) != 1:
+                    continue
+                leaves: list[list[ast.stmt]] = []
+
+                def collect(node: ast.If) -> bool:
+                    for part in (node.body, node.orelse):
+                        if not part:
+                            return False            # a path that does not assign t
+                        if len(part) == 1 and isinstance(part[0], ast.If) and part is node.orelse:
+                            if not collect(part[0]):
+                                return False
+                            continue
+                        last = part[-1]
+                        if not (isinstance(last, ast.Assign) and len(last.targets) == 1 and isinstance(last.targets[0], ast.Name)
+                                and last.targets[0].id == t):
+                            return False
+                        if any(isinstance(x, ast.Name) and x.id == t for s_ in part[:-1] for x in ast.walk(s_)):
+                            return False
+                        leaves.append(part)
+                    return True
+                if not collect(a) or not leaves:
+                    continue
+                stores = [x for x in ast.walk(fn) if isinstance(x, ast.Name) and x.id == t and isinstance(x.ctx, ast.Store)]
+                if len(stores) != len(leaves):
+                    continue
+                if sum(1 for s_ in b.body + b.orelse for _ in ast.walk(s_) if isinstance(_, ast.stmt)) * len(leaves) > 120:
+                    continue
+                for part in leaves:
+                    e = part[-1].value
+                    cond = ast.UnaryOp(op=ast.Not(), operand=e) if neg else e
+                    part[-1] = ast.copy_location(ast.If(test=cond, body=clone(b.body), orelse=clone(b.orelse)), part[-1])
+                del blk[i + 1]
+                changed = True
+                break
+        return changed
+
+    def _forward_ctor_fields(self, fn: ast.AST, mod) -> bool:
+        """`b = Buffer(bucket, data)` ... `b.pos`: a field that the constructor of a class of the same module
+        sets to one of its parameters as it is (`self.pos = pos`, at the top level of __init__) reads as the
+        argument that was passed, while neither the local, the field nor the argument is written again"""
+        if mod is None:
+            return False
+        ctors: dict[str, dict[str, int]] = {}
+        for c in getattr(mod, 'body', []):
+            if not isinstance(c, ast.ClassDef):
+                continue
+            init = next((m for m in c.body if isinstance(m, ast.FunctionDef) and m.name == '__init__'), None)
+            if init is None or init.args.vararg or init.args.kwarg:
+                continue
+            params = [a.arg for a in init.args.args][1:]
+            fields: dict[str, int] = {}
+            for st in init.body:
+                if isinstance(st, ast.Assign) and len(st.targets) == 1 and isinstance(st.targets[0], ast.Attribute) \
+                        and isinstance(st.targets[0].value, ast.Name) and st.targets[0].value.id == 'self' \
+                        and isinstance(st.value, ast.Name) and st.value.id in params:
+                    fields[st.targets[0].attr] = params.index(st.value.id)
+            # a field written a second time anywhere in the class is not a plain copy
+            for n in ast.walk(c):
+                if isinstance(n, ast.Attribute) and isinstance(n.ctx, (ast.Store, ast.Del)) and n.attr in fields \
+                        and not any(n is st.targets[0] for st in init.body if isinstance(st, ast.Assign)):
+                    fields.pop(n.attr, None)
+            if fields:
+                ctors[c.name] = fields
+        if not ctors:
+            return False
+        stores: dict[str, int] = {}
+        for n in ast.walk(fn):
+            if isinstance(n, ast.Name) and isinstance(n.ctx, (ast.Store, ast.Del)):
+                stores[n.id] = stores.get(n.id, 0) + 1
+        params_fn = {a.arg for a in ast.walk(fn) if isinstance(a, ast.arg)}
+        changed = False
+        for st in list(ast.walk(fn)):
+            if not (isinstance(st, ast.Assign) and len(st.targets) == 1 and isinstance(st.targets[0], ast.Name)
+                    and isinstance(st.value, ast.Call) and isinstance(st.value.func, ast.Name)
+                    and st.value.func.id in ctors and not st.value.keywords
+                    and not any(isinstance(a, ast.Starred) for a in st.value.args)):
+                continue
+            v = st.targets[0].id
+            if stores.get(v, 0) != 1 or v in params_fn:
+                continue
+            for f, idx in ctors[st.value.func.id].items():
+                if idx >= len(st.value.args):
+                    continue
+                arg = st.value.args[idx]
+                if not isinstance(arg, ast.Name) or not (arg.id in params_fn and stores.get(arg.id, 0) == 0
+                                                         or stores.get(arg.id, 0) == 1 and arg.id not in params_fn):
+                    continue
+                if any(isinstance(x, ast.Attribute) and isinstance(x.ctx, (ast.Store, ast.Del)) and x.attr == f
+                       and isinstance(x.value, ast.Name) and x.value.id == v for x in ast.walk(fn)):
+                    continue
+                for parent in ast.walk(fn):
+                    for field_, val in ast.iter_fields(parent):
+                        items = val if isinstance(val, list) else [val]
+                        for k, x in enumerate(items):
+                            if isinstance(x, ast.Attribute) and isinstance(x.ctx, ast.Load) and x.attr == f \
+                                    and isinstance(x.value, ast.Name) and x.value.id == v \
+                                    and getattr(x, 'lineno', 0) >= getattr(st, 'lineno', 0):
+                                new = ast.copy_location(ast.Name(id=arg.id, ctx=ast.Load()), x)
+                                if isinstance(val, list):
+                                    val[k] = new
+                                else:
+                                    setattr(parent, field_, new)
+                                changed = True
+        return changed
+
+    def _sink_splat_user(self, fn: ast.AST) -> bool:
+        """`if c: kw = {'day': 1} else: kw = {'month': 1, 'day': 1}` followed by a statement that calls with
+        `**kw`: the statement moves into each branch with the keywords of that branch written out"""
+        changed = False
+        for blk in list(self._blocks(fn)):
+            for i in range(len(blk) - 1):
+                a, nxt = blk[i], blk[i + 1]
+                if not isinstance(a, ast.If) or isinstance(nxt, (ast.If, ast.For, ast.While, ast.Try, ast.With,
+                                                                 ast.FunctionDef, ast.ClassDef)):
+                    continue
+                splats = [k for c in ast.walk(nxt) if isinstance(c, ast.Call) for k in c.keywords
+                          if k.arg is None and isinstance(k.value, ast.Name)]
+                if len(splats) != 1:
+                    continue
+                v = splats[0].value.id
+                leaves: list[list[ast.stmt]] = []
+
+                def collect(node: ast.If) -> bool:
+                    for part in (node.body, node.orelse):
+                        if not part:
+                            return False
+                        if len(part) == 1 and isinstance(part[0], ast.If) and part is node.orelse:
+                            if not collect(part[0]):
+                                return False
+                            continue
+                        last = part[-1]
+                        if not (isinstance(last, (ast.Assign, ast.AnnAssign)) and getattr(last, 'value', None) is not None
+                                and isinstance(last.targets[0] if isinstance(last, ast.Assign) else last.target, ast.Name)
+                                and (last.targets[0] if isinstance(last, ast.Assign) else last.target).id == v
+                                and isinstance(last.value, ast.Dict)
+                                and all(isinstance(k, ast.Constant) and isinstance(k.value, str) for k in last.value.keys)):
+                            return False
+                        leaves.append(part)
+                    return True
+                if not collect(a) or not leaves:
+                    continue
+                loads = [x for x in ast.walk(fn) if isinstance(x, ast.Name) and x.id == v and isinstance(x.ctx, ast.Load)]
+                if len(loads) != 1:
+                    continue
+                for part in leaves:
+                    d = part[-1].value
+                    st2 = clone(nxt)
+                    for c in ast.walk(st2):
+                        if isinstance(c, ast.Call):
+                            kws = []
+                            for k in c.keywords:
+                                if k.arg is None and isinstance(k.value, ast.Name) and k.value.id == v:
+                                    kws.extend(ast.keyword(arg=kk.value, value=clone(vv)) for kk, vv in zip(d.keys, d.values))
+                                else:
+                                    kws.append(k)
+                            c.keywords = kws
+                    part.append(st2)
+                del blk[i + 1]
+                changed = True
+                break
+        return changed
+
+    def _inline_module_value_constants(self, fn: ast.AST, mod) -> bool:
+        """`ONE_DAY` / `UNIX_EPOCH`: a module-level name spelt as a constant, bound once to a date / time value
+        object built from constants (`datetime.timedelta(days=1)`, `datetime.datetime(1970, 1, 1, tzinfo=UTC())`)
+        is written out where the function reads it"""
+        if mod is None:
+            return False
+        consts: dict[str, ast.AST] = {}
+        counts: dict[str, int] = {}
+        for st in getattr(mod, 'body', []):
+            tg = st.targets[0] if isinstance(st, ast.Assign) and len(st.targets) == 1 else (
+                st.target if isinstance(st, ast.AnnAssign) and st.value is not None else None)
+            if isinstance(tg, ast.Name) and tg.id.isupper():
+                counts[tg.id] = counts.get(tg.id, 0) + 1
+                v = st.value
+                if isinstance(v, ast.Call) and ast.unparse(v.func) in (
+                        'datetime.timedelta', 'timedelta', 'datetime.datetime', 'datetime.time', 'datetime.date'):
+                    def plain(x) -> bool:
+                        return isinstance(x, ast.Constant) or (isinstance(x, ast.Call) and not x.args and not x.keywords
+                                                               and isinstance(x.func, ast.Name))
+                    if all(plain(x) for x in v.args) and all(k.arg is not None and plain(k.value) for k in v.keywords):
+                        consts[tg.id] = v
+        consts = {k: v for k, v in consts.items() if counts.get(k) == 1}
+        if not consts:
+            return False
+        local = {x.id for x in ast.walk(fn) if isinstance(x, ast.Name) and isinstance(x.ctx, (ast.Store, ast.Del))}
+        local |= {a.arg for a in ast.walk(fn) if isinstance(a, ast.arg)}
+        changed = False
+
+        class T(ast.NodeTransformer):
+            def visit_Name(self, node):
+                nonlocal changed
+                if isinstance(node.ctx, ast.Load) and node.id in consts and node.id not in local:
+                    changed = True
+                    return ast.copy_location(clone(consts[node.id]), node)
+                return node
+        for field in ('body',):
+            setattr(fn, field, [T().visit(st) for st in getattr(fn, field)])
         return changed
 
     def _fold_constant_ifs(self, fn: ast.AST) -> bool:
